@@ -409,7 +409,7 @@ impl Property for C12 {
                 Tier::Thorough => 3_000_000,
             },
             max_bytes: 256,
-            timeout: Duration::from_secs(120),
+            timeout: Duration::from_secs(20),
         }
     }
     fn rule(&self) -> &'static str {
